@@ -10,10 +10,12 @@
 package main
 
 import (
+	"bytes"
 	"crypto/sha256"
 	"encoding/json"
 	"fmt"
 	"os"
+	"os/exec"
 	"runtime"
 	"runtime/debug"
 	"sort"
@@ -35,6 +37,16 @@ type loneKey struct {
 	variant int
 	slot    int
 	shape   int
+	capmax  bool
+}
+
+// key is the lone reference that instance j of configuration c is compared with.
+func (c cfg) key(j int) loneKey {
+	slot := j
+	if c.Shared {
+		slot = 0
+	}
+	return loneKey{c.Engine, c.Variants[j], slot, c.shape(), c.CapMax}
 }
 
 type loneEntry struct {
@@ -67,16 +79,124 @@ func digest(results []string, o obs) (d [16]byte) {
 	return
 }
 
-// runLone executes an op word on a lone instance in a FRESH world (own runtime, own compilation).
-func runLone(k loneKey, dirs *hostDirs, ops []int) ([]string, obs) {
-	w := newWorld(cfg{Engine: k.engine, RT: "one", Variants: []int{k.variant}, Policy: "eager", Shape: k.shape}, dirs, k.slot)
+// loneOut is what a lone reference run yields.
+type loneOut struct {
+	Res []string `json:"res"`
+	Obs obs      `json:"obs"`
+	Abs []string `json:"abs"` // absolute-oracle failures of the lone run itself
+}
+
+// runLone executes an op word on a lone instance in a FRESH world (own runtime, own compilation) of this process.
+func runLone(k loneKey, dirs *hostDirs, ops []int) loneOut {
+	w := newWorld(cfg{Engine: k.engine, RT: "one", Variants: []int{k.variant}, Policy: "eager", Shape: k.shape, CapMax: k.capmax}, dirs, k.slot)
 	defer w.close()
 	word := make([]step, len(ops))
 	for i, o := range ops {
 		word[i] = step{0, o}
 	}
 	r := w.runWord(word)
-	return r.results[0], r.final[0]
+	return loneOut{r.results[0], r.final[0], r.abs}
+}
+
+// ---- child processes. Process-wide state (package-level pools, caches, clocks) outlives worlds, so a reference
+// computed in a process that already ran other worlds may be polluted. Authoritative references and confirmations
+// are therefore computed in FRESH processes (re-exec of this binary), which share only the mount directories.
+
+type childReq struct {
+	Root     string        `json:"root"`
+	Lone     *loneReq      `json:"lone,omitempty"`
+	Case     *replayCase   `json:"case,omitempty"`
+	Separate *separateCase `json:"separate,omitempty"`
+}
+
+type loneReq struct {
+	Engine  string `json:"engine"`
+	Variant int    `json:"variant"`
+	Slot    int    `json:"slot"`
+	Shape   int    `json:"shape"`
+	CapMax  bool   `json:"capmax"`
+	Ops     []int  `json:"ops"`
+}
+
+type childResp struct {
+	Lone     *loneOut  `json:"lone,omitempty"`
+	Mismatch *mismatch `json:"mismatch,omitempty"`
+}
+
+func callChild(req childReq) childResp {
+	exe, err := os.Executable()
+	if err != nil {
+		fatalf("executable: %v", err)
+	}
+	in, _ := json.Marshal(req)
+	cmd := exec.Command(exe, "child")
+	cmd.Stdin = bytes.NewReader(in)
+	cmd.Stderr = os.Stderr
+	out, err := cmd.Output()
+	if err != nil {
+		fatalf("child process (%s): %v", in[:min(len(in), 300)], err)
+	}
+	var resp childResp
+	if err := json.Unmarshal(out, &resp); err != nil {
+		fatalf("child process output %q: %v", out[:min(len(out), 300)], err)
+	}
+	return resp
+}
+
+// childMain serves one request in a fresh process: the requested thing is the FIRST thing this process does.
+func childMain() {
+	var req childReq
+	if err := json.NewDecoder(os.Stdin).Decode(&req); err != nil {
+		fw.Fatalf("child: %v", err)
+	}
+	dirs := hostDirsAt(req.Root)
+	var resp childResp
+	switch {
+	case req.Lone != nil:
+		l := req.Lone
+		o := runLone(loneKey{l.Engine, l.Variant, l.Slot, l.Shape, l.CapMax}, dirs, l.Ops)
+		resp.Lone = &o
+	case req.Case != nil:
+		e := &explorer{dirs: dirs, freshLone: true}
+		resp.Mismatch = e.judge(*req.Case)
+	case req.Separate != nil:
+		resp.Mismatch = judgeSeparate(*req.Separate, dirs)
+	}
+	b, _ := json.Marshal(resp)
+	os.Stdout.Write(b)
+}
+
+// loneFresh is runLone in a fresh process.
+func loneFresh(k loneKey, dirs *hostDirs, ops []int) loneOut {
+	r := callChild(childReq{Root: dirs.root, Lone: &loneReq{k.engine, k.variant, k.slot, k.shape, k.capmax, ops}})
+	if r.Lone == nil {
+		fatalf("child returned no lone result")
+	}
+	return *r.Lone
+}
+
+const confirmRuns = 3
+
+// confirm re-executes a case in confirmRuns fresh processes (same words, same order, one world, lone references from
+// further fresh processes) and returns the mismatch if it recurs in at least two of them.
+func confirm(req childReq) *mismatch {
+	var first *mismatch
+	n := 0
+	for i := 0; i < confirmRuns; i++ {
+		if m := callChild(req).Mismatch; m != nil {
+			n++
+			if first == nil {
+				first = m
+			}
+		}
+		if n >= 2 || n+(confirmRuns-1-i) < 2 {
+			break
+		}
+	}
+	if n >= 2 {
+		return first
+	}
+	return nil
 }
 
 func decode(code, n int) []int {
@@ -98,7 +218,7 @@ func intern(s string) string {
 	return v.(string)
 }
 
-func buildLone(abort func() bool, breathe func(), k loneKey, dirs *hostDirs, depth int, count *atomic.Int64) *loneTable {
+func buildLone(abort func() bool, breathe func(), onAbs func(loneKey, []int, string), k loneKey, dirs *hostDirs, depth int, count *atomic.Int64) *loneTable {
 	t := &loneTable{byLen: make([][]loneEntry, depth+1)}
 	for n := 0; n <= depth; n++ {
 		t.byLen[n] = make([]loneEntry, pow(K, n))
@@ -114,7 +234,11 @@ func buildLone(abort func() bool, breathe func(), k loneKey, dirs *hostDirs, dep
 			}
 			for code := ci * chunk; code < tot && code < (ci+1)*chunk; code++ {
 				breathe()
-				res, o := runLone(k, dirs, decode(code, n))
+				lo := runLone(k, dirs, decode(code, n))
+				res, o := lo.Res, lo.Obs
+				if len(lo.Abs) > 0 {
+					onAbs(k, decode(code, n), lo.Abs[0])
+				}
 				e := loneEntry{dig: digest(res, o)}
 				// chunk of the last step = stdout minus parent's stdout; parents (length n-1) are complete.
 				if n > 0 {
@@ -163,6 +287,8 @@ type explorer struct {
 	stop                                       atomic.Bool
 	nonRepro, loneRepaired                     atomic.Int64
 	verbose                                    bool
+	freshLone                                  bool // explain() takes its lone references from fresh processes
+	loneAbs                                    atomic.Int64
 	memStop                                    atomic.Bool // memory guard tripped: take no new work
 	peakRSS                                    atomic.Int64
 	throttle                                   atomic.Bool
@@ -184,16 +310,20 @@ type replayCase struct {
 
 // mismatch describes the first difference between a multi-instance run of word and the lone references.
 type mismatch struct {
-	inst      int
-	field     string
-	got, want string
-	culprit   string // op of the last step of ANOTHER instance before the divergence (or "")
-	victimOp  string
+	Inst     int    `json:"inst"`
+	Field    string `json:"field"`
+	Got      string `json:"got"`
+	Want     string `json:"want"`
+	Culprit  string `json:"culprit"` // op of the last step of ANOTHER instance before the divergence (or "")
+	VictimOp string `json:"victim_op"`
 }
 
 // check compares the result of word (executed in a world of configuration c) with the lone references,
 // by digest. It returns true when everything matches.
 func (e *explorer) check(c cfg, word []step, r wordResult) bool {
+	if len(r.abs) > 0 {
+		return false
+	}
 	n := len(c.Variants)
 	var code, cnt [3]int
 	// per-step shared stdout chunks
@@ -201,7 +331,7 @@ func (e *explorer) check(c cfg, word []step, r wordResult) bool {
 		code[s.I] = code[s.I]*K + s.Op
 		cnt[s.I]++
 		if c.Shared && cnt[s.I] <= c.RefDepth {
-			t := e.lone[loneKey{c.Engine, c.Variants[s.I], 0, c.shape()}]
+			t := e.lone[c.key(s.I)]
 			if r.sharedOut[k] != t.byLen[cnt[s.I]][code[s.I]].chunk {
 				return false
 			}
@@ -217,11 +347,7 @@ func (e *explorer) check(c cfg, word []step, r wordResult) bool {
 		if cnt[j] > c.RefDepth {
 			continue // the single actor of a full-depth word: no reference of that length (see NOTES.md)
 		}
-		slot := j
-		if c.Shared {
-			slot = 0
-		}
-		t := e.lone[loneKey{c.Engine, c.Variants[j], slot, c.shape()}]
+		t := e.lone[c.key(j)]
 		if digest(r.results[j], r.final[j]) != t.byLen[cnt[j]][code[j]].dig {
 			return false
 		}
@@ -248,33 +374,41 @@ func (e *explorer) explain(c cfg, word []step, r wordResult) *mismatch {
 	for _, s := range word {
 		proj[s.I] = append(proj[s.I], s.Op)
 	}
+	if len(r.abs) > 0 {
+		return &mismatch{Inst: -1, Field: "absolute", Got: r.abs[0], Want: "(absolute oracle: no twin needed)", Culprit: lastOther(len(word)-1, -1)}
+	}
 	type lr struct {
 		res    []string
 		o      obs
 		chunks []string
 	}
+	loneFn := runLone
+	if e.freshLone {
+		loneFn = loneFresh
+	}
 	lone := make([]lr, n)
 	for j := 0; j < n; j++ {
-		slot := j
-		if c.Shared {
-			slot = 0
-		}
-		k := loneKey{c.Engine, c.Variants[j], slot, c.shape()}
-		lone[j].res, lone[j].o = runLone(k, e.dirs, proj[j])
+		k := c.key(j)
 		prev := 0
-		for q := 1; q <= len(proj[j]); q++ {
-			_, o := runLone(k, e.dirs, proj[j][:q])
-			lone[j].chunks = append(lone[j].chunks, o.Stdout[min(prev, len(o.Stdout)):])
-			prev = len(o.Stdout)
+		for q := 0; q <= len(proj[j]); q++ {
+			lo := loneFn(k, e.dirs, proj[j][:q])
+			if len(lo.Abs) > 0 {
+				return &mismatch{Inst: j, Field: "absolute(lone-reference)", Got: lo.Abs[0], Want: "(absolute oracle: no twin needed)"}
+			}
+			if q > 0 {
+				lone[j].chunks = append(lone[j].chunks, lo.Obs.Stdout[min(prev, len(lo.Obs.Stdout)):])
+			}
+			prev = len(lo.Obs.Stdout)
+			lone[j].res, lone[j].o = lo.Res, lo.Obs
 		}
 	}
 	for k, s := range word {
 		got, want := r.results[s.I][idx[s.I]], lone[s.I].res[idx[s.I]]
 		if got != want {
-			return &mismatch{inst: s.I, field: "result", got: got, want: want, culprit: lastOther(k-1, s.I), victimOp: opNames[s.Op]}
+			return &mismatch{Inst: s.I, Field: "result", Got: got, Want: want, Culprit: lastOther(k-1, s.I), VictimOp: opNames[s.Op]}
 		}
 		if c.Shared && r.sharedOut[k] != lone[s.I].chunks[idx[s.I]] {
-			return &mismatch{inst: s.I, field: "shared-stdout-chunk", got: fmt.Sprintf("%q", r.sharedOut[k]), want: fmt.Sprintf("%q", lone[s.I].chunks[idx[s.I]]), culprit: lastOther(k-1, s.I), victimOp: opNames[s.Op]}
+			return &mismatch{Inst: s.I, Field: "shared-stdout-chunk", Got: fmt.Sprintf("%q", r.sharedOut[k]), Want: fmt.Sprintf("%q", lone[s.I].chunks[idx[s.I]]), Culprit: lastOther(k-1, s.I), VictimOp: opNames[s.Op]}
 		}
 		idx[s.I]++
 	}
@@ -287,7 +421,7 @@ func (e *explorer) explain(c cfg, word []step, r wordResult) *mismatch {
 			b.Stdout = ""
 		}
 		if f, got, want := a.diff(b); f != "" {
-			return &mismatch{inst: j, field: "final." + f, got: got, want: want, culprit: lastOther(len(word)-1, j)}
+			return &mismatch{Inst: j, Field: "final." + f, Got: got, Want: want, Culprit: lastOther(len(word)-1, j)}
 		}
 	}
 	return nil
@@ -300,13 +434,13 @@ func (m *mismatch) signature(c cfg) string {
 			topo = "different-modules"
 		}
 	}
-	cul := m.culprit
+	cul := m.Culprit
 	if cul == "" {
 		cul = "none(earlier-word-or-instantiation)"
 	}
-	s := fmt.Sprintf("%s:%s:%s", c.Engine, topo, m.field)
-	if m.victimOp != "" {
-		s += "(" + m.victimOp + ")"
+	s := fmt.Sprintf("%s:%s:%s", c.Engine, topo, m.Field)
+	if m.VictimOp != "" {
+		s += "(" + m.VictimOp + ")"
 	}
 	return s + "<-" + cul
 }
@@ -328,9 +462,16 @@ func (e *explorer) judge(rc replayCase) *mismatch {
 	return e.explain(rc.Cfg, last, r)
 }
 
-// failed is called when a word executed in a (possibly reused) world does not match. It isolates a replayable
-// case in fresh worlds: the word alone; else an earlier word of the same world followed by the word; else
-// the whole history of the world.
+// failed is called (with every other worker paused) when a word executed in a reused world does not match.
+//
+//  1. A minimal candidate is searched IN this process with fresh worlds: the word alone; else [an earlier word of the
+//     same world, the word] (sequential instances); this uses in-process lone references and is fast.
+//  2. A candidate only becomes a VIOLATION when it is CONFIRMED: re-executed in fresh processes (confirmRuns=3; same
+//     words, same order, one world; lone references from further fresh processes) it must recur at least twice.
+//  3. If there is no candidate, or it is not confirmed, the whole batch — every word this world executed so far, in
+//     order, then the word — is re-executed the same way; recurring twice it is a VIOLATION with the signature suffix
+//     ":history-dependent" and the batch prefix as replay.
+//  4. A mismatch that never recurs is a note: the run stays exhaustive and exits 0 (never a harness error).
 func (e *explorer) failed(c cfg, history [][]step, word []step) {
 	e.violMu.Lock()
 	e.violCount++
@@ -342,41 +483,67 @@ func (e *explorer) failed(c cfg, history [][]step, word []step) {
 		e.run.Capped(fmt.Sprintf("stopped after %d mismatching words", maxViolations))
 		return
 	}
+	report := func(m *mismatch, rc replayCase, suffix string) {
+		what := fmt.Sprintf("[%s] word {%s}: instance %d %s = %s, lone instance gives %s", c, wordString(word), m.Inst, m.Field, m.Got, m.Want)
+		if len(rc.Words) > 1 {
+			what += fmt.Sprintf(" — only after %d earlier word(s) in the same world (fresh instances each), first {%s}", len(rc.Words)-1, wordString(rc.Words[0]))
+		}
+		e.run.Violation(m.signature(c)+suffix, what+fmt.Sprintf(" [confirmed in fresh processes, %d runs]", confirmRuns), rc)
+		e.outcomes.Inc("word:mismatch")
+	}
+	var cand *replayCase
 	try := func(words [][]step) bool {
 		rc := replayCase{Cfg: c, Words: words}
-		if m := e.judge(rc); m != nil {
-			what := fmt.Sprintf("[%s] word {%s}: instance %d %s = %s, lone instance gives %s", c, wordString(word), m.inst, m.field, m.got, m.want)
-			if len(words) > 1 {
-				what += fmt.Sprintf(" — only after %d earlier word(s) in the same world (fresh instances each), first {%s}", len(words)-1, wordString(words[0]))
-			}
-			sig := m.signature(c)
-			if len(words) > 1 {
-				sig += "@after-earlier-instances"
-			}
-			e.run.Violation(sig, what, rc)
-			e.outcomes.Inc("word:mismatch")
+		if e.judge(rc) != nil {
+			cand = &rc
 			return true
 		}
 		return false
 	}
-	if try([][]step{word}) {
-		return
+	if !try([][]step{word}) {
+		// Not reproduced alone. Were the memoised lone references (computed while other workers were running)
+		// themselves disturbed? Recompute them now that everything else is paused.
+		e.repairLone(c, word)
+		for q := len(history) - 1; q >= 0 && q >= len(history)-4000; q-- {
+			if try([][]step{history[q], word}) {
+				break
+			}
+		}
 	}
-	// Not reproduced alone. Were the memoised lone references (computed while other workers were running)
-	// themselves disturbed? Recompute them now that everything else is paused.
-	if e.repairLone(c, word) {
-		return
-	}
-	for q := len(history) - 1; q >= 0 && q >= len(history)-4000; q-- {
-		if try([][]step{history[q], word}) {
+	if cand != nil {
+		if m := confirm(childReq{Root: e.dirs.root, Case: cand}); m != nil {
+			suffix := ""
+			if len(cand.Words) > 1 {
+				suffix = "@after-earlier-instances"
+			}
+			report(m, *cand, suffix)
 			return
 		}
 	}
-	if try(append(append([][]step{}, history...), word)) {
-		return
+	if len(history) > 0 {
+		whole := replayCase{Cfg: c, Words: append(append([][]step{}, history...), word)}
+		if m := confirm(childReq{Root: e.dirs.root, Case: &whole}); m != nil {
+			report(m, whole, ":history-dependent")
+			return
+		}
 	}
 	e.nonRepro.Add(1)
-	e.run.Note("non-reproducible mismatch: cfg %s word {%s} after %d words in its world", c, wordString(word), len(history))
+	e.run.Note("mismatch that did not recur in fresh processes: cfg %s word {%s} after %d words in its world", c, wordString(word), len(history))
+}
+
+// loneAbsFailure: a lone reference run (a lone instance in a fresh runtime of THIS process) violated the absolute
+// oracle. That is a violation by itself; the deterministic witness is the separate-runtime case (a disturbing
+// instance in another runtime, then the lone word), confirmed in fresh processes.
+func (e *explorer) loneAbsFailure(k loneKey, ops []int, msg string) {
+	if e.loneAbs.Add(1) > 3 {
+		return
+	}
+	sc := separateCase{Engine: k.engine, Ops: ops, CapMax: k.capmax}
+	if m := confirm(childReq{Root: e.dirs.root, Separate: &sc}); m != nil {
+		e.reportSeparate(sc, m)
+		return
+	}
+	e.run.Note("lone reference %v %v violated the absolute oracle (%s) but the separate-runtime case did not recur in fresh processes", k, ops, msg)
 }
 
 // repairLone recomputes (quiesced) the memo entries that word's projections use; entries that differ are replaced.
@@ -385,6 +552,9 @@ func (e *explorer) failed(c cfg, history [][]step, word []step) {
 // merged words of every configuration (judged quiesced). If neither produces a violation the run ends as a
 // harness error.
 func (e *explorer) repairLone(c cfg, word []step) (repaired bool) {
+	if e.lone == nil {
+		return false
+	}
 	n := len(c.Variants)
 	proj := make([][]int, n)
 	for _, s := range word {
@@ -394,16 +564,13 @@ func (e *explorer) repairLone(c cfg, word []step) (repaired bool) {
 		if len(proj[j]) > c.RefDepth {
 			continue
 		}
-		slot := j
-		if c.Shared {
-			slot = 0
-		}
-		k := loneKey{c.Engine, c.Variants[j], slot, c.shape()}
+		k := c.key(j)
 		t := e.lone[k]
 		code := 0
 		for q, o := range proj[j] {
 			code = code*K + o
-			res, ob := runLone(k, e.dirs, proj[j][:q+1])
+			lo := runLone(k, e.dirs, proj[j][:q+1])
+			res, ob := lo.Res, lo.Obs
 			ent := &t.byLen[q+1][code]
 			d := digest(res, ob)
 			chunk := intern(ob.Stdout[min(len(ob.Stdout), t.stdoutLen(code/K, q)):])
@@ -646,8 +813,9 @@ func (e *explorer) exploreAll(ps []plan) []int64 {
 // sequentially before anything else, and a failure here ends the run.
 type separateCase struct {
 	Engine      string `json:"engine"`
-	Ops         []int  `json:"ops"`          // the lone word
-	DisturbOpen bool   `json:"disturb_open"` // true: the disturbing instance is still open while the word runs
+	Ops         []int  `json:"ops"`              // the lone word
+	DisturbOpen bool   `json:"disturb_open"`     // true: the disturbing instance is still open while the word runs
+	CapMax      bool   `json:"capmax,omitempty"` // both runtimes use WithMemoryCapacityFromMax(true)
 }
 
 func allOps(withExit bool) []int {
@@ -660,69 +828,107 @@ func allOps(withExit bool) []int {
 	return ops
 }
 
-// judgeSeparate returns the first difference between (lone word in a fresh process state) and (the same lone
-// word after / while a disturbing instance in another runtime executed every letter).
+func opIndex(name string) int {
+	for i, n := range opNames {
+		if n == name {
+			return i
+		}
+	}
+	panic(name)
+}
+
+// judgeSeparate must be the first thing its process does. It returns the first difference between the lone word in
+// the pristine process and the same lone word after / while a disturbing instance in ANOTHER runtime executed every
+// letter twice (twice: so that it also writes into the pages it has grown) — or an absolute-oracle failure of either.
 func judgeSeparate(sc separateCase, dirs *hostDirs) *mismatch {
-	k := loneKey{sc.Engine, 0, 0, 1}
-	r1, o1 := runLone(k, dirs, sc.Ops)
-	var r2 []string
-	var o2 obs
-	if sc.DisturbOpen {
-		d := newWorld(cfg{Engine: sc.Engine, RT: "one", Variants: []int{0}, Policy: "eager", Shape: 1}, dirs, 1)
-		in := d.instantiate(0)
+	k := loneKey{sc.Engine, 0, 0, 1, sc.CapMax}
+	absM := func(which string, lo loneOut) *mismatch {
+		if len(lo.Abs) == 0 {
+			return nil
+		}
+		return &mismatch{Field: "absolute(" + which + ")", Got: lo.Abs[0], Want: "(absolute oracle: no twin needed)", Culprit: "instance-in-another-runtime"}
+	}
+	l1 := runLone(k, dirs, sc.Ops)
+	if m := absM("pristine-process", l1); m != nil {
+		return m
+	}
+	d := newWorld(cfg{Engine: sc.Engine, RT: "one", Variants: []int{0}, Policy: "eager", Shape: 1, CapMax: sc.CapMax}, dirs, 1)
+	in := d.instantiate(0)
+	for pass := 0; pass < 2; pass++ {
 		for _, o := range allOps(false) {
 			in.call(in.fn(o))
 		}
-		r2, o2 = runLone(k, dirs, sc.Ops)
+	}
+	var l2 loneOut
+	if sc.DisturbOpen {
+		l2 = runLone(k, dirs, sc.Ops)
 		in.mod.Close(ctx)
 		d.close()
 	} else {
-		runLone(loneKey{sc.Engine, 0, 1, 1}, dirs, allOps(true))
-		r2, o2 = runLone(k, dirs, sc.Ops)
+		in.call(in.fn(opIndex("exit")))
+		in.mod.Close(ctx)
+		d.close()
+		l2 = runLone(k, dirs, sc.Ops)
 	}
-	for i := range r1 {
-		if r1[i] != r2[i] {
-			return &mismatch{field: "result", got: r2[i], want: r1[i], victimOp: opNames[sc.Ops[i]], culprit: "instance-in-another-runtime"}
+	if m := absM("after-another-runtime", l2); m != nil {
+		return m
+	}
+	for i := range l1.Res {
+		if l1.Res[i] != l2.Res[i] {
+			return &mismatch{Field: "result", Got: l2.Res[i], Want: l1.Res[i], VictimOp: opNames[sc.Ops[i]], Culprit: "instance-in-another-runtime"}
 		}
 	}
-	if f, got, want := o2.diff(o1); f != "" {
-		return &mismatch{field: "final." + f, got: got, want: want, culprit: "instance-in-another-runtime"}
+	if f, got, want := l2.Obs.diff(l1.Obs); f != "" {
+		return &mismatch{Field: "final." + f, Got: got, Want: want, Culprit: "instance-in-another-runtime"}
 	}
 	return nil
 }
 
+func (e *explorer) reportSeparate(sc separateCase, m *mismatch) {
+	word := make([]step, len(sc.Ops))
+	for i, o := range sc.Ops {
+		word[i] = step{0, o}
+	}
+	sig := fmt.Sprintf("%s:separate-runtimes:%s", sc.Engine, m.Field)
+	if m.VictimOp != "" {
+		sig += "(" + m.VictimOp + ")"
+	}
+	e.run.Violation(sig, fmt.Sprintf("[%s, capmax=%v, two runtimes with nothing in common, fresh process] lone word {%s}: %s = %s after/while an instance in ANOTHER runtime ran every letter, %s before",
+		sc.Engine, sc.CapMax, wordString(word), m.Field, m.Got, m.Want), map[string]any{"separate": sc})
+	e.outcomes.Inc("separate:mismatch")
+}
+
+// phase0: every case runs in its OWN fresh process (so it is exactly what `replay` re-executes), all cases in parallel.
 func (e *explorer) phase0() (cases int64, ok bool) {
-	ok = true
+	var scs []separateCase
 	for _, eng := range []string{"compiler", "interpreter"} {
 		var words [][]int
 		for o := range opNames {
 			words = append(words, []int{o})
 		}
-		words = append(words, allOps(true))
-		for _, w := range words {
-			for _, open := range []bool{false, true} {
-				sc := separateCase{Engine: eng, Ops: w, DisturbOpen: open}
-				cases++
-				if m := judgeSeparate(sc, e.dirs); m != nil {
-					ok = false
-					word := make([]step, len(w))
-					for i, o := range w {
-						word[i] = step{0, o}
-					}
-					sig := fmt.Sprintf("%s:separate-runtimes:%s", eng, m.field)
-					if m.victimOp != "" {
-						sig += "(" + m.victimOp + ")"
-					}
-					e.run.Violation(sig, fmt.Sprintf("[%s, two runtimes with nothing in common] lone word {%s}: %s = %s after/while an instance in ANOTHER runtime ran every letter, %s before", eng, wordString(word), m.field, m.got, m.want),
-						map[string]any{"separate": sc})
-					e.outcomes.Inc("separate:mismatch")
-				} else {
-					e.outcomes.Inc("separate:unaffected")
+		words = append(words, allOps(true), []int{opIndex("grow"), opIndex("grow"), opIndex("store")})
+		for _, capMax := range []bool{false, true} {
+			for _, w := range words {
+				for _, open := range []bool{false, true} {
+					scs = append(scs, separateCase{Engine: eng, Ops: w, DisturbOpen: open, CapMax: capMax})
 				}
 			}
 		}
 	}
-	return
+	res := make([]*mismatch, len(scs))
+	fw.Parallel(len(scs), runtime.NumCPU(), func(i int) {
+		res[i] = callChild(childReq{Root: e.dirs.root, Separate: &scs[i]}).Mismatch
+	})
+	ok = true
+	for i, m := range res {
+		if m != nil {
+			ok = false
+			e.reportSeparate(scs[i], m)
+		} else {
+			e.outcomes.Inc("separate:unaffected")
+		}
+	}
+	return int64(len(scs)), ok
 }
 
 // memoryGuard bounds the resident set of the process. The workers allocate ~2 GiB/s of short-lived instance state
@@ -787,10 +993,10 @@ func plans(thorough bool) []plan {
 		d, override = v, true
 	}
 	seen := map[string]bool{}
-	shape := 1
+	shape, capMax := 1, false
 	add := func(depth int, rt string, variants []int, policy string, shared bool) {
 		for _, eng := range []string{"compiler", "interpreter"} {
-			c := cfg{Engine: eng, RT: rt, Variants: variants, Policy: policy, Shared: shared, Shape: shape}
+			c := cfg{Engine: eng, RT: rt, Variants: variants, Policy: policy, Shared: shared, Shape: shape, CapMax: capMax}
 			if !seen[c.String()] {
 				seen[c.String()] = true
 				ps = append(ps, plan{c, depth})
@@ -825,8 +1031,8 @@ func plans(thorough bool) []plan {
 	}
 	for _, pol := range []string{"lazy", "eager", "eager-rev"} {
 		for _, vs := range [][]int{same2, same3, diff2} {
-			if pol == "eager-rev" && len(vs) == 3 {
-				continue // dropped in round 5 to pay for the module-shape dimension
+			if pol == "eager-rev" && (len(vs) == 3 || vs[1] == 1) {
+				continue // dropped in rounds 5 and 6 to pay for the module-shape and capacity dimensions
 			}
 			add(s, "one", vs, pol, false)
 		}
@@ -838,7 +1044,9 @@ func plans(thorough bool) []plan {
 		add(s, rt, same2, "eager", false)
 		add(s, rt, diff2, "lazy", false)
 		quickOnly(func() {
-			add(s, rt, diff2, "eager", false)
+			if rt == "cache-mem" {
+				add(s, rt, diff2, "eager", false) // (cache-dir2 twin dropped in round 6)
+			}
 			add(s, rt, same3, "lazy", false)
 		})
 	}
@@ -860,6 +1068,16 @@ func plans(thorough bool) []plan {
 		add(s, "cache-mem", same2, "lazy", false)
 	}
 	shape = 1
+	// WithMemoryCapacityFromMax(true): capacity (3 pages) exceeds the initial size (1 page), so memory.grow re-slices
+	// instead of re-allocating. Same depth and reference rule as the shape configurations. Because worlds are reused
+	// for a whole shard, the history "A grows and writes, A is closed, B (same / different module) is instantiated
+	// and grows" occurs between consecutive words, and within a word as {0:grow 0:store 0:exit 1:grow}-like words.
+	capMax = true
+	add(s, "one", same2, "lazy", false)
+	add(s, "one", same2, "eager", false)
+	add(s, "one", diff2, "lazy", false)
+	add(s, "cache-mem", same2, "lazy", false)
+	capMax = false
 	return append(ps, primary...)
 }
 
@@ -867,12 +1085,8 @@ func plans(thorough bool) []plan {
 func neededLone(ps []plan) (keys []loneKey, depth map[loneKey]int) {
 	depth = map[loneKey]int{}
 	for _, p := range ps {
-		for j, v := range p.c.Variants {
-			slot := j
-			if p.c.Shared {
-				slot = 0
-			}
-			k := loneKey{p.c.Engine, v, slot, p.c.shape()}
+		for j := range p.c.Variants {
+			k := p.c.key(j)
 			if _, ok := depth[k]; !ok {
 				keys = append(keys, k)
 			}
@@ -894,7 +1108,7 @@ func setRefDepths(ps []plan) {
 		maxd = max(maxd, p.depth)
 	}
 	for i := range ps {
-		if ps[i].c.shape() != 1 {
+		if ps[i].c.shape() != 1 || ps[i].c.CapMax {
 			ps[i].c.RefDepth = ps[i].depth - 1
 		} else {
 			ps[i].c.RefDepth = maxd - 1
@@ -903,6 +1117,10 @@ func setRefDepths(ps []plan) {
 }
 
 func main() {
+	if len(os.Args) > 1 && os.Args[1] == "child" {
+		childMain()
+		return
+	}
 	if len(os.Args) > 1 && os.Args[1] == "replay" {
 		replay()
 		return
@@ -930,7 +1148,10 @@ func main() {
 		return
 	}
 	e := &explorer{run: run, dirs: dirs, lone: map[loneKey]*loneTable{}, outcomes: fw.NewCounter(), samples: fw.NewSampler(16), collisions: map[string]int64{}}
-	p0cases, p0ok := e.phase0()
+	p0cases, p0ok := int64(0), true
+	if os.Getenv("C11_SKIP_PHASE0") == "" { // development knob: exercise the merged-word classification on process-wide state
+		p0cases, p0ok = e.phase0()
+	}
 	if !p0ok {
 		run.Capped("phase 0 failed: the lone reference is not reproducible, merged-word exploration skipped")
 		os.RemoveAll(dirs.root)
@@ -951,7 +1172,7 @@ func main() {
 		return e.memStop.Load()
 	}
 	for _, k := range keys {
-		e.lone[k] = buildLone(abort, e.breathe, k, dirs, refDepth[k], &loneRuns)
+		e.lone[k] = buildLone(abort, e.breathe, e.loneAbsFailure, k, dirs, refDepth[k], &loneRuns)
 	}
 	if abort() {
 		// incomplete reference tables must not be used
@@ -970,9 +1191,6 @@ func main() {
 		perPlan = append(perPlan, map[string]any{"cfg": p.c.String(), "depth": p.depth, "words": counts[pi]})
 	}
 	bounds["explore_wall_s"] = float64(int(time.Since(t1).Seconds()*100)) / 100
-	if (e.nonRepro.Load() > 0 || e.loneRepaired.Load() > 0) && run.Violations() == 0 {
-		fatalf("%d non-reproducible mismatches, %d disturbed lone references, and no reproducible violation", e.nonRepro.Load(), e.loneRepaired.Load())
-	}
 	bounds["alphabet_per_instance"] = opNames
 	bounds["plans"] = perPlan
 	bounds["lone_reference"] = map[string]any{"keys(engine,variant,slot,shape)": len(keys), "word_length_per_key": fmt.Sprint(refDepth), "fresh_world_runs": loneRuns.Load(), "wall_s": loneWall}
@@ -981,7 +1199,7 @@ func main() {
 		Evaluations: e.words.Load(), DistinctNontriv: e.interleaved.Load(), States: e.words.Load(), Transitions: e.steps.Load(), TracesValidated: e.steps.Load(),
 		Rule:    "state = one merged word (history) per configuration, enumerated statelessly (instances cannot be forked, every word is executed from fresh instances); transition = one guest call on one instance; non-trivial = words in which at least two instances act",
 		Samples: e.samples.List(), Exhaustive: true, Outcomes: e.outcomes.Map(), Bounds: bounds,
-		Extra: map[string]any{"instance_observations_compared_with_lone": e.instObs.Load(), "phase0_separate_runtime_cases": p0cases, "peak_rss_bytes_sampled": e.peakRSS.Load(), "forced_collections": forcedGCs.Load(), "memory_throttles": e.throttles.Load(), "non_reproducible_mismatches": e.nonRepro.Load(), "lone_references_disturbed": e.loneRepaired.Load(), "words_with_cross_instance_collision_pair": e.collisions, "multi_worlds_built": e.worlds.Load(), "shards": e.shards, "lone_fresh_world_runs": loneRuns.Load()},
+		Extra: map[string]any{"instance_observations_compared_with_lone": e.instObs.Load(), "phase0_separate_runtime_cases": p0cases, "peak_rss_bytes_sampled": e.peakRSS.Load(), "forced_collections": forcedGCs.Load(), "memory_throttles": e.throttles.Load(), "mismatches_not_recurring_in_fresh_processes": e.nonRepro.Load(), "lone_references_disturbed": e.loneRepaired.Load(), "lone_references_violating_absolute_oracle": e.loneAbs.Load(), "words_with_cross_instance_collision_pair": e.collisions, "multi_worlds_built": e.worlds.Load(), "shards": e.shards, "lone_fresh_world_runs": loneRuns.Load()},
 	}, []string{
 		"the lone reference is an instance of the same module and slot configuration alone in a fresh runtime with a fresh compilation, one fresh world per reference word",
 		"merged words are enumerated up to renaming of interchangeable instances (same module); instantiation policies lazy/eager/eager-rev cover the instantiation orders that the renaming would drop; slots (temp directory, stdout buffer) are assumed interchangeable",
@@ -1012,11 +1230,11 @@ func replay() {
 	}
 	dirs := newHostDirs()
 	defer os.RemoveAll(dirs.root)
-	e := &explorer{dirs: dirs, verbose: true}
+	e := &explorer{dirs: dirs, verbose: true, freshLone: true}
 	if sc := doc.Replay.Separate; sc != nil {
 		fmt.Printf("replaying separate-runtime case %+v\n", *sc)
 		if m := judgeSeparate(*sc, dirs); m != nil {
-			fmt.Printf("REPRODUCED: %s = %s after/while an instance in another runtime ran, %s before\n", m.field, m.got, m.want)
+			fmt.Printf("REPRODUCED: %s = %s after/while an instance in another runtime ran, %s before\n", m.Field, m.Got, m.Want)
 			os.RemoveAll(dirs.root)
 			os.Exit(1)
 		}
@@ -1034,7 +1252,7 @@ func replay() {
 		os.RemoveAll(dirs.root)
 		os.Exit(0)
 	}
-	fmt.Printf("REPRODUCED: instance %d %s = %s, lone instance gives %s (signature %s)\n", m.inst, m.field, m.got, m.want, m.signature(doc.Replay.Cfg))
+	fmt.Printf("REPRODUCED: instance %d %s = %s, lone instance gives %s (signature %s)\n", m.Inst, m.Field, m.Got, m.Want, m.signature(doc.Replay.Cfg))
 	os.RemoveAll(dirs.root)
 	os.Exit(1)
 }
